@@ -324,7 +324,7 @@ class Differ:
             data=syn_pairs)
 
         for (lidx, lele, ridx, rele) in syn_pairs:
-            if lele is None:
+            if lidx is None:
                 next_path = path + "[{}]".format(ridx)
                 diff_action = DiffActions.ADD
                 opposite_val = None
@@ -347,7 +347,7 @@ class Differ:
                     diff_action, next_path, opposite_val, rele,
                     lhs_parent=lhs, lhs_iteration=lidx,
                     rhs_parent=rhs, rhs_iteration=ridx))
-            elif rele is None:
+            elif ridx is None:
                 next_path = path + "[{}]".format(lidx)
                 self._diffs.append(
                     DiffEntry(
@@ -394,17 +394,18 @@ class Differ:
             return
 
         idx = 0
+        absent = object()  # marks a missing element; None is a valid element
         diff_deeply = kwargs.pop("diff_deeply", True)
-        for (lele, rele) in zip_longest(lhs, rhs):
+        for (lele, rele) in zip_longest(lhs, rhs, fillvalue=absent):
             next_path = path + "[{}]".format(idx)
             idx += 1
-            if lele is None:
+            if lele is absent:
                 self._diffs.append(
                     DiffEntry(
                         DiffActions.ADD, next_path, None, rele,
                         lhs_parent=lhs, lhs_iteration=idx,
                         rhs_parent=rhs, rhs_iteration=idx))
-            elif rele is None:
+            elif rele is absent:
                 self._diffs.append(
                     DiffEntry(
                         DiffActions.DELETE, next_path, lele, None,
@@ -483,14 +484,14 @@ class Differ:
             data=syn_pairs)
 
         for (lidx, lele, ridx, rele) in syn_pairs:
-            if lele is None:
+            if lidx is None:
                 next_path = path + "[{}]".format(ridx)
                 self._diffs.append(
                     DiffEntry(
                         DiffActions.ADD, next_path, None, rele,
                         lhs_parent=lhs, lhs_iteration=lidx,
                         rhs_parent=rhs, rhs_iteration=ridx))
-            elif rele is None:
+            elif ridx is None:
                 next_path = path + "[{}]".format(lidx)
                 self._diffs.append(
                     DiffEntry(
